@@ -359,7 +359,10 @@ fn stratified_program(rng: &mut Rng, inputs: &[(&str, usize)], order: &[(&str, u
         }
         avail.push(*h);
     }
-    if rng.chance(30) {
+    // 0-3 constraints: control_translate numbers them `constraint_0`, `constraint_1`, .. per side
+    // (audit 2, B16: k >= 1 was reached by the `_full` op only)
+    let n_constraints = rng.weighted(&[64, 22, 10, 4]);
+    for _ in 0..n_constraints {
         let c = t::PCfg { preds: &avail, head_preds: &avail, vars: &["X", "Y"], syms, arith, max_rules: 1, max_body: 2, choice: false, constraints: true };
         rules.push(asp::Rule { head: asp::Head::Falsity, body: t::p_body(rng, &c) });
     }
@@ -537,11 +540,25 @@ fn gen_external_task(rng: &mut Rng) -> ExternalEquivalenceTask {
         entries.push(fol::UserGuideEntry::PlaceholderDeclaration(fol::PlaceholderDeclaration { name: "n".into(), sort: fol::Sort::General }));
         entries.push(fol::UserGuideEntry::PlaceholderDeclaration(fol::PlaceholderDeclaration { name: "n".into(), sort: fol::Sort::Symbol }));
     }
+    // user-guide assumptions over the input predicates; 8 %: over all public predicates; 7 %: over
+    // the inputs and the PRIVATE predicates of the program / the specification (refused:
+    // ensure_assumptions_only_contain_input_symbols is called with an EMPTY set of extra symbols for
+    // user-guide formulas, external_equivalence.rs:478, and with the program's private predicates
+    // for specification formulas, :496 - audit 2, B16 row 1: only such a case tells the two call
+    // sites apart)
+    let mut ug_priv_preds: Vec<(&str, usize)> = in_preds.clone();
+    ug_priv_preds.extend(priv_prog.iter().cloned());
+    if rng.chance(30) {
+        ug_priv_preds.extend(priv_spec.iter().cloned());
+    }
     let n_as = rng.weighted(&[5, 3, 1]);
     for _ in 0..n_as {
         let ps = if rng.chance(8) {
             violations += 1;
             &pub_preds
+        } else if ug_priv_preds.len() > in_preds.len() && rng.chance(8) {
+            violations += 1;
+            &ug_priv_preds
         } else {
             &in_preds
         };
